@@ -231,6 +231,118 @@ theorem help_width_pages (w : Nat) (app : HApp) (x : Ctx) (c : HCmd) (s : Str) :
     · cases h
     · exact help_width _ wrapLen_wrapH w _ s h
 
+/-! ## Pages rendered at an outer indentation: `Component.render(io, indentation)` -/
+
+/-- indentation 0 is the plain rendering -/
+theorem help_indent_zero (wrap : Nat → Str → List Str) (w : Nat) (p : Page) :
+    renderPageAt wrap w 0 p = renderPage wrap w p := by
+  unfold renderPageAt renderPage
+  rw [shift_zero, Nat.add_zero]
+
+/-- **`help_total_indented`**.  `help_total` for a page rendered with the optional parameter
+`indentation = k`: on a terminal at least as wide as the outer indentation plus the longest label
+plus its offset plus 2 (`widthOKAt`) rendering succeeds (parts 1, 2), every width handed to
+`textwrap.wrap` is ≥ 1 (part 3), and the margin is exact (part 4). -/
+theorem help_total_indented (wrap : Nat → Str → List Str) (w k : Nat) (app : HApp) (x : Ctx) (c : HCmd) :
+    (formatOK app.help = true → widthOKAt w k (applicationHelp app) = true →
+      ∃ s, renderApplicationHelpAt wrap w k app = .ok s) ∧
+    (formatOK c.help = true → widthOKAt w k (commandHelp app x c) = true →
+      ∃ s, renderCommandHelpAt wrap w k app x c = .ok s) ∧
+    (∀ p : Page, widthOKAt w k p = true → ∀ call ∈ wrapCallsAt w k p, 1 ≤ call.1) ∧
+    (∀ p : Page, widthOKAt w k p = false → ∀ s, renderPageAt wrap w k p ≠ .ok s) := by
+  refine ⟨?_, ?_, ?_, ?_⟩
+  · intro hf hw
+    unfold renderApplicationHelpAt renderPageAt
+    rw [hf]
+    simp only [Bool.not_true, Bool.false_eq_true, if_false]
+    apply renderAll_ok
+    apply elemOK_shift
+    intro ie hie
+    exact ⟨allText_application app ie hie, (widthOKAt_iff w k _).mp hw ie hie⟩
+  · intro hf hw
+    unfold renderCommandHelpAt renderPageAt
+    rw [hf]
+    simp only [Bool.not_true, Bool.false_eq_true, if_false]
+    apply renderAll_ok
+    apply elemOK_shift
+    intro ie hie
+    exact ⟨allText_command app x c ie hie, (widthOKAt_iff w k _).mp hw ie hie⟩
+  · intro p hw call hc
+    unfold wrapCallsAt at hc
+    obtain ⟨ie, hie, hm⟩ := List.mem_filterMap.mp hc
+    have hok := (widthOKAt_iff w k p).mp hw ie hie
+    cases he : ie.2 with
+    | emptyLine => rw [he] at hm; simp [wrapText] at hm
+    | paragraph t =>
+      rw [he] at hm hok
+      simp only [wrapText, Option.some.injEq] at hm
+      rcases hok with h | h
+      · cases h
+      · rw [← hm]; simp only; omega
+    | labeled l t q a =>
+      rw [he] at hm hok
+      rcases hok with h | h
+      · cases h
+      · cases t with
+        | none => simp [wrapText] at hm
+        | some t' =>
+          simp only [wrapText, Option.some.injEq] at hm
+          rw [← hm]; simp only; omega
+  · intro p hw s
+    unfold renderPageAt
+    apply renderAll_fail
+    unfold widthOKAt at hw
+    rw [List.all_eq_false] at hw
+    obtain ⟨ie, hie, hbad⟩ := hw
+    refine ⟨(ie.1 + k, ie.2), ?_, ?_, ?_⟩
+    · unfold shift; exact List.mem_map.mpr ⟨ie, hie, rfl⟩
+    · intro he; simp only at he; rw [he] at hbad; exact hbad rfl
+    · intro hle
+      apply hbad
+      have hne : ie.2 ≠ .emptyLine := by
+        intro he; rw [he] at hbad; exact hbad rfl
+      simp only at hle
+      rw [need_shift _ _ _ _ hne] at hle
+      cases he : ie.2 with
+      | emptyLine => rfl
+      | paragraph t => rw [he] at hle; simpa using hle
+      | labeled l t q a => rw [he] at hle; simpa using hle
+
+/-- **`help_width_indented`**.  `help_width` for a page rendered with `indentation = k`: the
+elements are handed the outer indentation (it is part of the width they wrap to), so every line
+of the visible text - the outer indentation included - is still shorter than the terminal. -/
+theorem help_width_indented (wrap : Nat → Str → List Str) (hwrap : WrapLen wrap) (w k : Nat) (p : Page) (s : Str)
+    (h : renderPageAt wrap w k p = .ok s) : ∀ l ∈ pageLines s, l.length ≤ w - 1 :=
+  lines_of_fits (w - 1) s (renderAll_fits wrap hwrap w (align p + k) (shift k p) s h)
+
+/-- `help_width_indented` for the two pages and the two textwrap models -/
+theorem help_width_pages_indented (w k : Nat) (app : HApp) (x : Ctx) (c : HCmd) (s : Str) :
+    (renderApplicationHelpAt Clikit.Wrap.wrap w k app = .ok s → ∀ l ∈ pageLines s, l.length ≤ w - 1) ∧
+    (renderCommandHelpAt Clikit.Wrap.wrap w k app x c = .ok s → ∀ l ∈ pageLines s, l.length ≤ w - 1) ∧
+    (renderApplicationHelpAt wrapH w k app = .ok s → ∀ l ∈ pageLines s, l.length ≤ w - 1) ∧
+    (renderCommandHelpAt wrapH w k app x c = .ok s → ∀ l ∈ pageLines s, l.length ≤ w - 1) := by
+  refine ⟨?_, ?_, ?_, ?_⟩ <;> intro h
+  · unfold renderApplicationHelpAt at h
+    split at h
+    · cases h
+    · exact help_width_indented _ wrapLen_wrap w k _ s h
+  · unfold renderCommandHelpAt at h
+    split at h
+    · cases h
+    · exact help_width_indented _ wrapLen_wrap w k _ s h
+  · unfold renderApplicationHelpAt at h
+    split at h
+    · cases h
+    · exact help_width_indented _ wrapLen_wrapH w k _ s h
+  · unfold renderCommandHelpAt at h
+    split at h
+    · cases h
+    · exact help_width_indented _ wrapLen_wrapH w k _ s h
+
+/-- non-vacuity: a labeled paragraph at outer indentation 4 wraps four columns earlier -/
+example : (renderElement wrapH 30 (16 + 4) (2 + 4)
+    (.labeled (S "<a1>") (some (S "aaaa bbbb cccc dddd")) 2 true)).toOption.isSome = true := by decide
+
 /-- the contract holds for both textwrap models (length; content preservation is
 `Clikit.Wrap.wrap_content` / `Clikit.Help.wrapH_content`) -/
 theorem help_wrap_contract :
